@@ -126,6 +126,24 @@ Disc(q) == q[2] * q[2] - 4 * q[1] * q[3]
 TestForms == {<<1, 0, 1>>, <<1, 1, 0 - 1>>, <<2, 0 - 1, 3>>, <<0, 1, 0>>, <<1, 2, 1>>, <<0 - 1, 3, 2>>}
 
 (***************************************************************************)
+(* Other forms of signature (2,1): B = C^T J C for an invertible integer C   *)
+(* (congruent to J, hence of the same signature).  The group preserving B   *)
+(* is C^-1 O(J) C; the element corresponding to g is C^-1 X C, carried as    *)
+(* the numerator adj(C) (2X) C over 2 det C.  o_to_pgl(., bilinear_form=B)   *)
+(* is documented as the representation of THAT group, so it must again be    *)
+(* multiplicative up to sign, of the determinant of g and of its |trace|    *)
+(* (it is determined up to conjugacy only: the frame diagonalising B is     *)
+(* not unique); for scalar C (B a multiple of J) it must return +-g.         *)
+(***************************************************************************)
+D3(a, b, c) == <<<<a, 0, 0>>, <<0, b, 0>>, <<0, 0, c>>>>
+FormPool == <<D3(2, 2, 2), D3(3, 1, 2), <<<<1, 1, 0>>, <<0, 1, 0>>, <<0, 0, 1>>>>,
+              <<<<2, 1, 0>>, <<1, 1, 1>>, <<0, 1, 3>>>>, <<<<1, 0, 1>>, <<0, 2, 0>>, <<0, 0, Neg(1)>>>>>>
+FormOf(C) == MMul(Tr(C), MMul(J3, C))
+ConjNum(C, a) == MMul(MMul(Adj(C), So21x2(a)), C)
+IsScalar(C) == C = MScale(C[1][1], IdM(3))
+ASSUME \A i \in 1..Len(FormPool) : Det(FormPool[i]) # 0 /\ FormOf(FormPool[i]) = Tr(FormOf(FormPool[i]))
+
+(***************************************************************************)
 (* Adjoint representations                                                 *)
 (***************************************************************************)
 RowOf(q, n) == ((q - 1) \div n) + 1
@@ -261,6 +279,13 @@ So21Laws == "so21" \in MapNames =>
               IN /\ MMul(Tr(X), MMul(J3, X)) = MScale(4 * d * d, J3)
                  /\ MaxAbs(X) <= DetBound(3) => Det(X) = 8 * d * d * d      \* (guard: 32-bit cofactor expansion)
                  /\ \A q \in TestForms : Disc(MatVec(S3, q)) = d * d * Disc(q)
+\* C^-1 X C preserves B = C^T J C (up to the factor det g ^2 outside GL(2,Z)); 32-bit guard on the numerators
+FormPoolLaws == "so21" \in MapNames =>
+                  \A i \in 1..Len(FormPool) :
+                    LET C == FormPool[i]
+                        N == ConjNum(C, g)
+                        d == 2 * Det(C) * DetOf(g)[1]
+                    IN MaxAbs(N) <= 2000 => MMul(Tr(N), MMul(FormOf(C), N)) = MScale(d * d, FormOf(C))
 So31Laws == "so31" \in MapNames =>
               LET X == So31x2(g)
                   n2 == GNorm(DetOf(g))     \* -det of a Hermitian matrix is scaled by |det g|^2 (preserved in SL(2,C))
@@ -292,5 +317,7 @@ EmitObs == PrintT("OBS " \o ToJson(Obs))
 Emit == PrintT("EMIT " \o ToJson([from |-> g, act |-> last', to |-> g']))
 View == <<g, len>>
 ASSUME PrintT("TAB " \o ToJson([gens |-> Gens, scale |-> [nm \in MapNames |-> Scale(nm)],
-                                killing |-> 2 * Dim, traceform |-> TraceFormSL(Dim)]))
+                                killing |-> 2 * Dim, traceform |-> TraceFormSL(Dim),
+                                forms |-> [i \in 1..Len(FormPool) |-> [C |-> FormPool[i], B |-> FormOf(FormPool[i]),
+                                                                        scalar |-> IsScalar(FormPool[i])]]]))
 =============================================================================
